@@ -6,8 +6,8 @@
 EXTENDS MatryerMockContract, TLC, Json
 
 Trace == ndJsonDeserialize("trace.ndjson")
-VARIABLES tsig, topt, tfunc, tlog, tby, l
-tvars == <<tsig, topt, tfunc, tlog, tby, l>>
+VARIABLES tsig, topt, tfunc, tlog, tby, tsnaps, l
+tvars == <<tsig, topt, tfunc, tlog, tby, tsnaps, l>>
 
 Ev == Trace[l]
 
@@ -16,18 +16,21 @@ TraceInit == /\ tsig = [m \in Methods |-> [ar |-> 0, var |-> FALSE, nres |-> 0]]
              /\ tfunc = [m \in Methods |-> Nil]
              /\ tlog = [m \in Methods |-> << >>]
              /\ tby = [m \in Methods |-> << >>]
+             /\ tsnaps = << >>
              /\ l = 1
 
 Reset == /\ l <= Len(Trace) /\ Ev.op = "reset"
          /\ tsig' = Ev.sig /\ topt' = Ev.opt /\ tfunc' = Ev.init
          /\ tlog' = [m \in Methods |-> << >>]
          /\ tby' = Ev.by                    \* what the bystander instance holds before the history starts
+         /\ tsnaps' = << >>
          /\ l' = l + 1
 
 Step == /\ l <= Len(Trace) /\ Ev.op # "reset"
-        /\ StepOK(tsig, topt, tfunc, tlog, tby, Ev)
+        /\ StepOK(tsig, topt, tfunc, tlog, tby, tsnaps, Ev)
         /\ tfunc' = FuncsAfter(tfunc, Ev)
         /\ tlog' = Ev.logs
+        /\ tsnaps' = SnapsAfter(tsnaps, tlog, Ev)      \* same retention rule as the driver, on the OBSERVED logs
         /\ l' = l + 1
         /\ UNCHANGED <<tsig, topt, tby>>
 
@@ -37,11 +40,11 @@ NextReset(i) == IF \E j \in (i + 1)..Len(Trace) : Trace[j].op = "reset"
                 THEN CHOOSE j \in (i + 1)..Len(Trace) : Trace[j].op = "reset" /\ \A k \in (i + 1)..(j - 1) : Trace[k].op # "reset"
                 ELSE Len(Trace) + 1
 Reject == /\ l <= Len(Trace) /\ Ev.op # "reset"
-          /\ ~StepOK(tsig, topt, tfunc, tlog, tby, Ev)
-          /\ PrintT(<<"REJECT", Ev.case, l, FailedClause(tsig, topt, tfunc, tlog, tby, Ev)>>)
+          /\ ~StepOK(tsig, topt, tfunc, tlog, tby, tsnaps, Ev)
+          /\ PrintT(<<"REJECT", Ev.case, l, FailedClause(tsig, topt, tfunc, tlog, tby, tsnaps, Ev)>>)
           /\ TLCSet(2, TLCGet(2) + 1)
           /\ l' = NextReset(l)
-          /\ UNCHANGED <<tsig, topt, tfunc, tlog, tby>>
+          /\ UNCHANGED <<tsig, topt, tfunc, tlog, tby, tsnaps>>
 
 TraceNext == (Reset \/ Step \/ Reject) /\ TLCSet(1, l')
 TraceSpec == TraceInit /\ TLCSet(1, 1) /\ TLCSet(2, 0) /\ [][TraceNext]_tvars
